@@ -7,7 +7,7 @@ From SK Require Import Lib.Base Model.Capa Model.PeltR Model.CapaR Model.Generic
 Import ListNotations.
 
 
-Theorem C03_binary64_l2_penalised_saving_shape : forall x alpha : float, gpenalise F64 F64_tiny [x] alpha [0%float] = (x + 0 + - alpha)%float.
+Theorem C03_binary64_l2_penalised_saving_shape : forall x alpha : float, gpenalise F64 F64_tiny [x] alpha [0%float] = (x + - alpha)%float.
 Proof. exact @penalise_l2_shape. Qed.
 
 Theorem C03_binary64_l2_objective_is_the_real_models : forall (xs : list R) (alpha : R) (s e : nat), PcR (l2Sc [xs]) alpha [0] s e = l2_saving_R (prefix xs) s e - alpha.
